@@ -1,6 +1,6 @@
 #!/venv/bin/python
 """How do the source-to-Coq translators (translate/qlayer.py, oplayer.py, mconv.py,
-cstack.py) react to each seeded change, before any input is tried?
+cstack.py, effects.py) react to each seeded change, before any input is tried?
 
 For every seeded/<id>/patch.diff: apply it in a scratch worktree, run the four
 translators, compare with the output for the unchanged tree:
@@ -17,14 +17,17 @@ import json, os, subprocess, sys
 V = os.path.dirname(os.path.dirname(os.path.abspath(__file__)))
 TREE, SCRATCH = sys.argv[1], sys.argv[2]
 sys.path.insert(0, V)
-from translate import qlayer, oplayer, mconv, cstack      # noqa: E402
+from translate import qlayer, oplayer, mconv, cstack, effects      # noqa: E402
 
 TR = {
     'QuantityImpl': (qlayer, 'src/quantity/__init__.py', 'Proofs/GenQuantityEq.vo'),
     'OpsImpl': (oplayer, 'src/quantity/__init__.py', 'Proofs/GenOpsEq.vo'),
     'MoneyConvImpl': (mconv, 'src/quantity/money/__init__.py', 'Proofs/GenMoneyConvEq.vo'),
     'ConvStackImpl': (cstack, 'src/quantity/__init__.py', 'Proofs/GenConvStackEq.vo'),
+    # effect programs: the obligation is `atomic ... = true` in the property files
+    'EffectsImpl': (effects, 'src/quantity/__init__.py', 'Properties/C16.vo Properties/C11.vo'),
 }
+ONLY = [a for a in sys.argv[3:]]          # optional: names of translators to (re)do
 
 
 def sh(cmd):
@@ -55,8 +58,11 @@ for sid in sorted(os.listdir(os.path.join(V, 'seeded'))):
         rows.append((sid, 'patch does not apply'))
         continue
     res = {}
+    tj = os.path.join(d, 'translators.json')
+    if ONLY and os.path.exists(tj):
+        res = json.load(open(tj))
     try:
-        for n in TR:
+        for n in (ONLY or TR):
             tag, out = gen(n)
             if tag == 'refused':
                 res[n] = {'reaction': 'refused', 'why': out}
@@ -72,14 +78,14 @@ for sid in sorted(os.listdir(os.path.join(V, 'seeded'))):
                 res[n] = {'reaction': 'differs', 'proof_breaks': 'Error' in r.stdout}
     finally:
         sh(f'git -C {TREE} checkout -- .')
-    json.dump(res, open(os.path.join(d, 'translators.json'), 'w'), indent=1)
+    json.dump(res, open(tj, 'w'), indent=1)
     kinds = [v['reaction'] for v in res.values()]
     overall = 'refused' if 'refused' in kinds else 'differs' if 'differs' in kinds else 'same'
     summary[overall] += 1
     rows.append((sid, overall, {n: v['reaction'] + ('' if v.get('proof_breaks', True) else ' (PROOF STILL PASSES)')
                                 for n, v in res.items() if v['reaction'] != 'same'}))
 # restore the scratch build
-sh(f'cd {SCRATCH}/coq && timeout 900 make -j8 ' + ' '.join(t[2] for t in TR.values()))
+sh(f'cd {SCRATCH}/coq && timeout 1800 make -j8 ' + ' '.join(t[2] for t in TR.values()))
 for r in rows:
     print(*r)
 print(summary)
